@@ -503,8 +503,8 @@ theorem restricted_meaning (l pre post : List FsOp) (k : Nat) (h : restrictedBef
   · cases h'
   · exact h'
 
-/-! ### the two echoing error texts are real leaks when not withheld (negative witnesses), and the
-theorem is not vacuous -/
+/-! ### the two echoing error texts are real leaks when not withheld (negative witnesses);
+non-vacuity of the main theorem -/
 
 def k1 : KeyVal := { id := 1, hexOk := true }
 def kBad : KeyVal := { id := 2, hexOk := false }
